@@ -146,7 +146,38 @@ inductive Out where
   | dupTopic (t : Topic)
 deriving Repr, DecidableEq
 
-/-- one message taken from source `i` -/
+/-- OOB / CLOSE / HELLO -/
+def takeSpecial (st : St) (i : Nat) (s : Src) (w : Wire) : St × List Out × Bool :=
+  if w.mid = OF.Facts.MSG_ID_OOB then ({ st with srcs := st.srcs.set i s }, [.oob i w.body], false)
+  else if w.mid = OF.Facts.MSG_ID_CLOSE then
+    ({ st with srcs := st.srcs.set i { s with minId := OF.Facts.MSG_ID_INITIAL, conn := false } }, [], false)
+  else ({ st with srcs := st.srcs.set i s }, [], false)
+
+/-- store the outcome of `process_msg` in the source: pruning and unregister-when-complete -/
+def storeRecvd (s : Src) (r : Option Recvd) (topics : List Topic) : Src :=
+  let s := { s with recvd := r.map (fun r => prune s r topics) }
+  if gotAll s then { s with reg := false } else s
+
+/-- ephemeral source: its own expected id, never touches the others -/
+def takeEph (st : St) (i : Nat) (s : Src) (m : Msg) (topics : List Topic) : St × List Out × Bool :=
+  match processMsg s m topics s.minId with
+  | (.older, _) => ({ st with srcs := st.srcs.set i s }, [], false)
+  | (_, r) => ({ st with srcs := st.srcs.set i { storeRecvd s r topics with minId := m.mid } }, [], false)
+
+/-- synchronised source, message not older than expected -/
+def syncApply (st : St) (i : Nat) (s : Src) (m : Msg) (topics : List Topic) (res : PM) (r : Option Recvd) :
+    St × List Out × Bool :=
+  let srcs := st.srcs.set i (storeRecvd s r topics)
+  let srcs := if res = .newer ∧ ¬ st.balance then resetOthers srcs i else srcs
+  let srcs := if st.balance ∧ m.topic ≠ "" then lockOthers srcs i else srcs
+  ({ st with srcs := srcs, minRecvId := m.mid }, [], st.balance && m.topic != "")
+
+def takeSync (st : St) (i : Nat) (s : Src) (m : Msg) (topics : List Topic) : St × List Out × Bool :=
+  match processMsg s m topics st.minRecvId with
+  | (.older, _) => ({ st with srcs := st.srcs.set i s }, [], false)
+  | (res, r) => syncApply st i s m topics res r
+
+/-- one message taken from source `i`; the Bool says the balanced lock reset the poll list (`socks = None`) -/
 def onTake (st : St) (i : Nat) : St × List Out × Bool :=
   match st.srcs[i]? with
   | none => (st, [], false)
@@ -154,36 +185,13 @@ def onTake (st : St) (i : Nat) : St × List Out × Bool :=
     match s0.queue with
     | [] => (st, [], false)
     | w :: q =>
-      let s := { s0 with queue := q }
-      let msgBal : Nat := if s.eph = 0 then w.bal else 0
+      let msgBal : Nat := if s0.eph = 0 then w.bal else 0
       let st := if msgBal ≠ 0 then { st with balanced := msgBal } else st
-      let s := { s with conn := true }
-      if w.mid ≤ OF.Facts.MSG_ID_SPECIAL then
-        if w.mid = OF.Facts.MSG_ID_OOB then ({ st with srcs := st.srcs.set i s }, [.oob i w.body], false)
-        else if w.mid = OF.Facts.MSG_ID_CLOSE then
-          ({ st with srcs := st.srcs.set i { s with minId := OF.Facts.MSG_ID_INITIAL, conn := false } }, [], false)
-        else ({ st with srcs := st.srcs.set i s }, [], false)
+      let s := { s0 with queue := q, conn := true }
+      if w.mid ≤ OF.Facts.MSG_ID_SPECIAL then takeSpecial st i s w
       else
         let m : Msg := { mid := w.mid, topic := decodeTopic w.frame0, body := w.body, src := i }
-        if s.eph ≠ 0 then
-          match processMsg s m w.topics s.minId with
-          | (.older, _) => ({ st with srcs := st.srcs.set i s }, [], false)
-          | (_, r) =>
-            let r := r.map (fun r => prune s r w.topics)
-            let s := { s with recvd := r, minId := m.mid }
-            let s := if gotAll s then { s with reg := false } else s
-            ({ st with srcs := st.srcs.set i s }, [], false)
-        else
-          match processMsg s m w.topics st.minRecvId with
-          | (.older, _) => ({ st with srcs := st.srcs.set i s }, [], false)
-          | (res, r) =>
-            let r := r.map (fun r => prune s r w.topics)
-            let s := { s with recvd := r }
-            let s := if gotAll s then { s with reg := false } else s
-            let srcs := st.srcs.set i s
-            let srcs := if res = .newer ∧ ¬ st.balance then resetOthers srcs i else srcs
-            let srcs := if st.balance ∧ m.topic ≠ "" then lockOthers srcs i else srcs
-            ({ st with srcs := srcs, minRecvId := m.mid }, [], st.balance && m.topic != "")
+        if s.eph ≠ 0 then takeEph st i s m w.topics else takeSync st i s m w.topics
 
 /-- the three flags of the return condition, scanning sources in order with the `break`s -/
 def scanGot (balance : Bool) : List Src → Bool × Bool × Bool → Bool × Bool × Bool
@@ -239,30 +247,44 @@ inductive Ev where
   | timeout
 deriving Repr
 
+def stepDeliver (st : St) (i : Nat) (w : Wire) : St × List Out :=
+  match st.srcs[i]? with
+  | none => (st, [])
+  | some s => ({ st with srcs := st.srcs.set i { s with queue := s.queue ++ [w] } }, [])
+
+/-- entry of `recv`: `min_recv_id`, `balanced` -/
+def beginId (st : St) : Option Int → Int
+  | none => st.prevId + 1
+  | some k => max (st.prevId + 1) k
+
+def stepBegin (st : St) (state : Option Int) : St × List Out :=
+  if st.dead ∨ st.inCall then (st, []) else
+  ({ st with inCall := true, minRecvId := beginId st state, balanced := 0 }, [])
+
+def stepTake (st : St) (i : Nat) : St × List Out :=
+  if st.dead ∨ ¬ st.inCall then (st, []) else
+  match st.srcs[i]? with
+  | none => (st, [])
+  | some s => if s.reg then ((onTake st i).1, (onTake st i).2.1) else (st, [])
+
+def stepCheck (st : St) : St × List Out :=
+  if st.dead ∨ ¬ st.inCall then (st, []) else
+  if returnCond st then finish st else (st, [])
+
+def stepRequest (st : St) : St × List Out :=
+  if st.dead ∨ ¬ st.inCall then (st, []) else (st, requests st (st.minRecvId - 1))
+
+def stepTimeout (st : St) : St × List Out :=
+  if st.dead ∨ ¬ st.inCall then (st, []) else
+  ({ st with inCall := false, prevId := st.minRecvId - 1 }, [.retNone])
+
 def step (st : St) : Ev → St × List Out
-  | .deliver i w =>
-    match st.srcs[i]? with
-    | none => (st, [])
-    | some s => ({ st with srcs := st.srcs.set i { s with queue := s.queue ++ [w] } }, [])
-  | .begin state =>
-    if st.dead ∨ st.inCall then (st, []) else
-    let m := match state with
-      | none => st.prevId + 1
-      | some k => max (st.prevId + 1) k
-    ({ st with inCall := true, minRecvId := m, balanced := 0 }, [])
-  | .take i =>
-    if st.dead ∨ ¬ st.inCall then (st, []) else
-    match st.srcs[i]? with
-    | none => (st, [])
-    | some s => if s.reg then ((onTake st i).1, (onTake st i).2.1) else (st, [])
-  | .check =>
-    if st.dead ∨ ¬ st.inCall then (st, []) else
-    if returnCond st then finish st else (st, [])
-  | .request =>
-    if st.dead ∨ ¬ st.inCall then (st, []) else (st, requests st (st.minRecvId - 1))
-  | .timeout =>
-    if st.dead ∨ ¬ st.inCall then (st, []) else
-    ({ st with inCall := false, prevId := st.minRecvId - 1 }, [.retNone])
+  | .deliver i w => stepDeliver st i w
+  | .begin state => stepBegin st state
+  | .take i => stepTake st i
+  | .check => stepCheck st
+  | .request => stepRequest st
+  | .timeout => stepTimeout st
 
 def run (st : St) (evs : List Ev) : St × List Out :=
   evs.foldl (fun (acc : St × List Out) e => let (s, o) := step acc.1 e; (s, acc.2 ++ o)) (st, [])
